@@ -234,7 +234,7 @@ impl Stream for Z64 {
             let t = 1u64 << 32;
             // a central directory pushed past 4 GiB by entries that are each small and not declared large: only the
             // directory OFFSET needs ZIP64 (end record + locator), no entry does
-            g.push("big.cdoffset", format!("z64.big sizes={},{} large=0,0 dirs=1 comment=78", 3 * (1u64 << 30), (1u64 << 30) + (1 << 20)));
+            g.push("big.cdoffset", format!("z64.big sizes={},{} large=0,0 dirs=0 comment=78", 3 * (1u64 << 30), (1u64 << 30) + (1 << 20)));
             // an entry of exactly the marker value next to an entry whose header offset needs ZIP64 (D8), declared large
             g.push("big.offset", format!("z64.big sizes={},{} large=1,0 dirs=1 comment=-", t, t - 1));
         }
